@@ -39,7 +39,7 @@ XLA = dict(
     logical_not="Not", maximum="Max", minimum="Min", acos="Acos", acosh="Acosh", asin="Asin", asinh="Asinh", atan="Atan", atanh="Atanh", atan2="Atan2", cos="Cos", cosh="Cosh",
     sin="Sin", sinh="Sinh", tan="Tan", tanh="Tanh", exp="Exp", expm1="Expm1", log="Log", log1p="Log1p", ceil="Ceil", floor="Floor", round="Round", sign="Sign", real="Real",
     imag="Imag", complex="Complex", square="Square", sqrt="Sqrt", select="Select", lt="Lt", le="Le", gt="Gt", ge="Ge", eq="Eq", ne="Ne", is_finite="IsFinite", is_inf="IsInf",
-    is_posinf="IsPosInf", is_neginf="IsNegInf", is_nan="IsNan", is_negzero="IsNegZero", nextafter="NextAfter",
+    is_posinf="IsPosInf", is_neginf="IsNegInf", is_nan="IsNan", is_negzero="IsNegZero", nextafter="NextAfter", log2="Log2", log10="Log10",
 )
 CPP_CALL = dict(absolute="std::abs", sqrt="std::sqrt", log="std::log", log1p="std::log1p", exp="std::exp", maximum="std::max", minimum="std::min", sin="std::sin", cos="std::cos",
                 atan2="std::atan2", log2="std::log2", log10="std::log10", expm1="std::expm1", floor="std::floor", ceil="std::ceil")
@@ -395,6 +395,16 @@ def lattice_programs(target_name):
     x, y = ("x",), ("y",)
     un = [k for k in ("absolute", "negative", "positive", "sqrt", "exp", "log", "log1p", "sin", "cos", "sign", "real", "imag", "floor", "ceil", "square", "is_finite", "logical_not", "expm1") if True]
     bn = ["add", "subtract", "multiply", "divide", "maximum", "minimum", "atan2", "complex", "pow", "remainder", "nextafter"]
+    # every further kind for which either reference table or the target's own table has an entry (arity from the template)
+    fa_ = setup_repo_import()
+    pk = getattr(fa_.targets, target_name).kind_to_target
+    skip = {"select", "lt", "le", "gt", "ge", "eq", "ne", "logical_and", "logical_or", "logical_xor", "logical_not", "list", "item", "apply", "symbol", "constant"}
+    for k in sorted(set(table) | {k_ for k_, v_ in pk.items() if v_ is not NotImplemented}):
+        if k in skip or k in un or k in bn or k.startswith("bitwise") or k == "asin_acos_kernel":
+            continue
+        tmpl = pk.get(k)
+        arity = 2 if (isinstance(tmpl, str) and "{1}" in tmpl) or k in ("hypot", "copysign", "floor_divide") else 1
+        (bn if arity == 2 else un).append(k)
     cmps = ["lt", "le", "gt", "ge", "eq", "ne"]
     progs = [(k, x) for k in un if k != "logical_not"] + [(k, x, y) for k in bn + cmps]
     progs += [("logical_not", ("lt", x, y)), ("logical_and", ("lt", x, y), ("gt", x, y)), ("logical_or", ("le", x, y), ("ne", x, y)), ("logical_xor", ("le", x, y), ("ne", x, y))]
@@ -409,7 +419,7 @@ def lattice_programs(target_name):
             progs.append((k, x, i))
     for i in inner:
         progs += [("select", ("lt", x, y), i, y), ("select", ("lt", i, y), x, i), ("add", i, i), ("multiply", ("add", i, y), i)]
-    consts = [("c", 0), ("c", 1), ("c", 0.5), ("c", -2.5), ("c", 2), ("n", "largest"), ("n", "smallest"), ("n", "posinf"), ("n", "neginf"), ("n", "pi"), ("n", "eps")]
+    consts = [("c", 0), ("c", 1), ("c", 0.5), ("c", -2.5), ("c", 2), ("c", math.inf), ("c", -math.inf), ("c", -0.0), ("n", "largest"), ("n", "smallest"), ("n", "posinf"), ("n", "neginf"), ("n", "pi"), ("n", "eps")]
     for c in consts:
         progs += [("add", x, c), ("subtract", c, x), ("multiply", ("add", x, c), c), ("select", ("lt", x, c), c, y), ("lt", c, x), ("maximum", x, c)]
     progs += twin_constant_programs()
